@@ -46,6 +46,15 @@ def gen_cases(ctx):
             cases.append({"det": name, "seed": (ctx.seed + 31 * k) % 100000, "data": data,
                           "params": {"delta": 1.0, "max_buckets": 5, "new_sample_thresh": 1, "window_size_thresh": wst,
                                      "subwindow_size_thresh": sub, "conservative_bound": False}})
+    # PCACD with and without online scaling over a stream with at least two strong shifts (second epoch after a drift)
+    from .detectors import row_stream
+    for scaling in (False, True, False):
+        k += 1
+        c = gen_case(ctx, "PCACD", k)
+        w = c["params"]["window_size"]
+        c["params"]["online_scaling"] = scaling
+        c["data"] = row_stream(ctx.rng, 10 * w, 3, 3 * w)
+        cases.append(c)
     return cases
 
 
